@@ -128,9 +128,11 @@ def isinstance_model(I, v, clsv):
 
 def length(I, v, node=None):
     if I.codec is not None:
-        from .codec import SMapped, DictItems
+        from .codec import SMapped, DictItems, SetItems
 
-        if isinstance(v, (SMapped, DictItems)):
+        if isinstance(v, ZVal) and isinstance(v.ty, TSet):
+            return SInt(I.codec.generic_of(I.codec.set_items(v))[2])
+        if isinstance(v, (SMapped, DictItems, SetItems)):
             return SInt(I.codec.generic_of(v)[2])
         if isinstance(v, LDict) or (isinstance(v, ZVal) and isinstance(v.ty, TMap)):
             return SInt(I.codec.generic_of(I.codec.dict_items(v, "items"))[2])
@@ -511,6 +513,9 @@ def sorted_model(I, v, kwargs, node):
         from .codec import SortedKeys
 
         return SortedKeys(v)
+    if I.codec is not None and isinstance(v, ZVal) and isinstance(v.ty, TSet) and not kwargs:
+        # sorted(set): a sequence with the same members (its order IS a function of the value)
+        return set_to_seq(I, v, "sorted")
     items = I.try_iter_concrete(v)
     if items is not None:
         if "key" in kwargs or "reverse" in kwargs:
@@ -961,6 +966,8 @@ def zval_method(I, v, name, args, kwargs, node):
 
 def ldict_method(I, v, name, args, kwargs, node):
     c = I.ctx
+    if name in ("keys", "values", "items"):
+        return SIterable(name, v)
     if name == "get":
         ent = I.ldict_entry(v, args[0])
         if c.branch(ent[1]):
